@@ -181,12 +181,12 @@ func vObjField(name, typ string, sub ...ast.Selection) *ast.Field {
 
 // VerifChildrenOrder: two root services each answer one object; both objects are completed by the same
 // third service, so the two lookups form one group whose order is the order in which the root answers
-// arrived. The ids are symbolic among {"a", "b", ""}: an empty id cannot be looked up and fails the
+// arrived. The ids are symbolic among {"a", "b", "", "p#q:1"} (ids are opaque strings: the separators of the executor's own point syntax may occur in them): an empty id cannot be looked up and fails the
 // operation. Whatever the interleaving, the same inputs give the same data and the same error.
 func VerifChildrenOrder() {
-	ids := []string{"a", "b", ""}
-	idA := ids[verifChoice("idA", 3)]
-	idB := ids[verifChoice("idB", 3)]
+	ids := []string{"a", "b", "", "p#q:1"}
+	idA := ids[verifChoice("idA", 4)]
+	idB := ids[verifChoice("idB", 4)]
 	child := func(point, typ string) *planner.QueryPlanStep {
 		return &planner.QueryPlanStep{URL: "u2", ParentType: typ, InsertionPoint: []string{point}, QueryString: `query($id: ID!) { node(id: $id) { ... on ` + typ + ` { extra } } }`,
 			QueryStringHash: [32]byte{byte(len(typ)), typ[0]}}
